@@ -131,6 +131,7 @@ func runC18(c *ctx) {
 	secring := filepath.Join(repoRoot(), "pkg", "jsonsign", "testdata", "test-secring.gpg")
 	c18Capped(c)
 	c18ManyBlobs(c)
+	c18LongPoll(c)
 	storages := []string{"memory", "localdisk", "diskpacked", "blobpacked"}
 	indexes := []string{"memory", "leveldb", "kv", "sqlite"}
 	n := 0
@@ -324,6 +325,124 @@ func c18ManyBlobs(c *ctx) {
 		if !ok || eerr != nil || strings.Join(got, ",") != strings.Join(refs, ",") {
 			c.violation(-1, "c18-enumerate", fmt.Sprintf("client enumeration (max wait %v) of a store with %d blobs: %d listed, error %v, finished %v", wait, len(refs), len(got), eerr, ok), nil)
 		}
+	}
+}
+
+// long-polling proper: nothing is there when the request arrives, the blob arrives while the request waits. The answer
+// must come promptly after the arrival and list / stat the blob; without an arrival it must come at the end of the wait,
+// empty and well-formed.
+func c18LongPoll(c *ctx) {
+	for round := 0; round < 2; round++ {
+		sto := &memory.Storage{}
+		mux := http.NewServeMux()
+		mux.Handle("/bs/camli/enumerate-blobs", handlers.CreateEnumerateHandler(sto))
+		mux.Handle("/bs/camli/stat", handlers.CreateStatHandler(sto))
+		ts := httptest.NewServer(mux)
+		get := func(path string) (int, []byte, time.Duration) {
+			t0 := time.Now()
+			resp, err := http.Get(ts.URL + path)
+			if err != nil {
+				return 0, []byte(err.Error()), time.Since(t0)
+			}
+			defer resp.Body.Close()
+			b, _ := io.ReadAll(resp.Body)
+			return resp.StatusCode, b, time.Since(t0)
+		}
+		upload := func(content string) blob.Ref {
+			br := blob.RefFromString(content)
+			if _, err := blobserver.Receive(context.Background(), sto, br, strings.NewReader(content)); err != nil {
+				c.rep.Notes = append(c.rep.Notes, "long-poll upload: "+err.Error())
+			}
+			return br
+		}
+		type answer struct {
+			status int
+			body   []byte
+			took   time.Duration
+		}
+		ask := func(path string) chan answer {
+			ch := make(chan answer, 1)
+			go func() { st, b, d := get(path); ch <- answer{st, b, d} }()
+			return ch
+		}
+		await := func(what string, ch chan answer) (answer, bool) {
+			select {
+			case a := <-ch:
+				return a, true
+			case <-time.After(20 * time.Second):
+				c.violation(-1, "c18-longpoll-hangs", what+": no answer within 20 s (the wait asked for was 8 s)", nil)
+				return answer{}, false
+			}
+		}
+		// 1. enumerate, blob arrives 300 ms later
+		ch := ask("/bs/camli/enumerate-blobs?maxwaitsec=8")
+		time.Sleep(300 * time.Millisecond)
+		br1 := upload(fmt.Sprintf("arrives while an enumeration waits %d %d", round, c.seed))
+		c.rep.SpecChecks++
+		c.count("enumerate", "long poll, blob arrives during the wait")
+		if a, ok := await("long-polling enumerate", ch); ok {
+			var res struct {
+				Blobs []struct {
+					BlobRef string `json:"blobRef"`
+					Size    int    `json:"size"`
+				} `json:"blobs"`
+			}
+			err := json.Unmarshal(a.body, &res)
+			switch {
+			case a.status != 200 || err != nil:
+				c.violation(-1, "c18-enumerate", fmt.Sprintf("long-polling enumerate: status %d, body %q (%v)", a.status, a.body, err), nil)
+			case len(res.Blobs) != 1 || res.Blobs[0].BlobRef != br1.String():
+				c.violation(-1, "c18-enumerate-maxwaitsec-lists-nothing", fmt.Sprintf("long-polling enumerate: a blob arrived 300 ms into an 8 s wait; the answer (after %v) lists %d blobs", a.took.Round(time.Millisecond), len(res.Blobs)), nil)
+			case a.took > 5*time.Second:
+				c.violation(-1, "c18-longpoll-late", fmt.Sprintf("long-polling enumerate: the blob arrived after 300 ms, the answer came after %v", a.took.Round(time.Millisecond)), nil)
+			}
+		}
+		// 2. stat of an absent blob that arrives 300 ms later (asked together with a present one)
+		content2 := fmt.Sprintf("arrives while a stat waits %d %d", round, c.seed)
+		br2 := blob.RefFromString(content2)
+		ch = ask("/bs/camli/stat?camliversion=1&blob1=" + br2.String() + "&blob2=" + br1.String() + "&maxwaitsec=8")
+		time.Sleep(300 * time.Millisecond)
+		upload(content2)
+		c.rep.SpecChecks++
+		c.count("stat", "long poll, blob arrives during the wait")
+		if a, ok := await("long-polling stat", ch); ok {
+			var res struct {
+				Stat []struct {
+					BlobRef string `json:"blobRef"`
+					Size    int    `json:"size"`
+				} `json:"stat"`
+			}
+			err := json.Unmarshal(a.body, &res)
+			seen := map[string]int{}
+			for _, x := range res.Stat {
+				seen[x.BlobRef]++
+			}
+			switch {
+			case a.status != 200 || err != nil:
+				c.violation(-1, "c18-stat", fmt.Sprintf("long-polling stat: status %d, body %q (%v)", a.status, a.body, err), nil)
+			case seen[br1.String()] != 1 || seen[br2.String()] != 1 || len(res.Stat) != 2:
+				c.violation(-1, "c18-stat", fmt.Sprintf("long-polling stat of a present blob and one that arrived 300 ms into an 8 s wait: the answer (after %v) reports %v", a.took.Round(time.Millisecond), seen), nil)
+			case a.took > 5*time.Second:
+				c.violation(-1, "c18-longpoll-late", fmt.Sprintf("long-polling stat: the blob arrived after 300 ms, the answer came after %v", a.took.Round(time.Millisecond)), nil)
+			}
+		}
+		ts.Close()
+		// 3. nothing arrives: the answer comes at the end of the wait, empty and well-formed
+		sto2 := &memory.Storage{}
+		mux2 := http.NewServeMux()
+		mux2.Handle("/bs/camli/enumerate-blobs", handlers.CreateEnumerateHandler(sto2))
+		ts = httptest.NewServer(mux2)
+		c.rep.SpecChecks++
+		c.count("enumerate", "long poll, nothing arrives")
+		if a, ok := await("long-polling enumerate of an empty store", ask("/bs/camli/enumerate-blobs?maxwaitsec=1")); ok {
+			var res struct {
+				Blobs []any `json:"blobs"`
+			}
+			if err := json.Unmarshal(a.body, &res); a.status != 200 || err != nil || len(res.Blobs) != 0 || a.took < 800*time.Millisecond || a.took > 6*time.Second {
+				c.violation(-1, "c18-enumerate", fmt.Sprintf("enumerate?maxwaitsec=1 of an empty store: status %d after %v, body %q (%v)", a.status, a.took.Round(time.Millisecond), a.body, err), nil)
+			}
+		}
+		ts.Close()
 	}
 }
 
